@@ -1184,10 +1184,12 @@ func (ex *Exec) convert(st *State, v *Val, to types.Type, pos token.Pos) *Val {
 	// []byte(string) and string([]byte): keep the string as the slice's ghost? model as fresh with len
 	if isStringT(to) {
 		if sl, ok := from.Underlying().(*types.Slice); ok && isByte(sl.Elem()) {
-			// bytes -> string: fresh string of that length
-			s := ex.freshVal(to, "b2s")
-			ex.eng.smt.addAx(s.S, eq("(str.len "+s.S+")", v.kid("len").S))
-			return s
+			// bytes -> string: a deterministic function of (contents, length), inverse of the bytes of a string
+			ex.eng.smt.declFun("uf_bytesOf", "(declare-fun uf_bytesOf (String) (Array Int Int))")
+			ex.eng.smt.declFun("uf_strOf", "(declare-fun uf_strOf ((Array Int Int) Int) String)")
+			ex.eng.smt.addFunAx("uf_strOf", "(forall ((s String)) (! (= (uf_strOf (uf_bytesOf s) (str.len s)) s) :pattern ((uf_bytesOf s))))")
+			term := "(uf_strOf " + v.kid("elems").S + " " + v.kid("len").S + ")"
+			return &Val{Sh: toSh, T: to, S: term}
 		}
 	}
 	if sl, ok := to.Underlying().(*types.Slice); ok && isByte(sl.Elem()) && isStringT(from) {
